@@ -9,3 +9,4 @@ pub mod xutil;
 
 mod x_structure; // C01, C19
 mod x_render; // C02, C06, C08, C09
+mod x_total; // C04, C05
